@@ -14,8 +14,8 @@ namespace Graphiq
 namespace Metrics
 open Dag Relation
 
-/-- **an operation object as graphiq's classes construct it**: a gate on distinct quantum registers (`OpWF`), no user
-    labels, at most two quantum registers, a wrapper wraps base gate classes (`PlainOp'`), and an operation that carries
+/-- **an operation object as graphiq's classes construct it**: a gate on distinct quantum registers (`OpWF`), labels (user
+    labels included) outside the reserved names, at most two quantum registers, a wrapper wraps base gate classes (`PlainOp'`), and an operation that carries
     the label "one-qubit" and is of a one-qubit gate class acts on one quantum register and no classical register
     (`OneQubitOperationBase.__init__`) -/
 structure GraphiqOp (op : Op) : Prop where
